@@ -26,6 +26,7 @@ type Env struct {
 	resTup  *types.Tuple
 	depth   int
 	cur     *State // the current state while compiling inside old(...)
+	binders int    // number of enclosing genuine (non-Skolemised) quantifiers
 }
 
 func (e *Env) with(name string, v Value) *Env {
@@ -243,9 +244,16 @@ func (env *Env) local(name string) (Value, bool) {
 	}
 	var cands []*ssa.Alloc
 	for _, a := range env.fr.allocSeq {
-		if a.Comment == base {
-			cands = append(cands, a)
+		if a.Comment != base {
+			continue
 		}
+		// only variables that exist on the path leading to the state at hand
+		if !a.Heap {
+			if _, ok := env.st.locals[a]; !ok {
+				continue
+			}
+		}
+		cands = append(cands, a)
 	}
 	// also allocs not yet executed are unknown here
 	if len(cands) == 0 {
@@ -661,7 +669,8 @@ func (env *Env) quantifier(e *Expr, pol int, universal bool) Value {
 		vt = env.resolveType(e.Args[1].Name)
 	}
 	l := layout(vt)
-	skolem := (universal && pol > 0) || (!universal && pol < 0)
+	// a constant can replace the bound variable only outside every genuine quantifier (no dependency on outer variables)
+	skolem := ((universal && pol > 0) || (!universal && pol < 0)) && env.binders == 0
 	bv := Value{T: vt, C: make([]*Term, len(l))}
 	for j, c := range l {
 		if skolem {
@@ -671,6 +680,9 @@ func (env *Env) quantifier(e *Expr, pol int, universal bool) Value {
 		}
 	}
 	inner := env.with(name, bv)
+	if !skolem {
+		inner.binders = env.binders + 1
+	}
 	var guard *Term = True
 	if !typed {
 		lo := env.compile(e.Args[1], 0).one()
@@ -1011,6 +1023,10 @@ func (env *Env) callExpr(e *Expr, pol int) Value {
 			cs = append(cs, Eq(a.C[j], b.C[j]))
 		}
 		return boolVal(And(cs...))
+	case "base":
+		// identity of the backing array of a slice (or of any reference)
+		x := env.compile(e.Args[0], 0)
+		return intVal(x.C[0])
 	case "sameslice":
 		a := env.compile(e.Args[0], 0)
 		b := env.compile(e.Args[1], 0)
@@ -1088,6 +1104,27 @@ func (env *Env) specCall(sf *SpecFunc, args []Value, pol int) Value {
 	for _, rk := range sf.Reads {
 		keys := []string{rk}
 		if strings.HasPrefix(rk, "elems(") && strings.HasSuffix(rk, ")") {
+			// elems(p) for a slice parameter p: only the backing array of p
+			isParam := false
+			for i, p := range sf.Params {
+				if p.Name == rk[6:len(rk)-1] {
+					sl, ok := args[i].T.Underlying().(*types.Slice)
+					if !ok {
+						pt, _ := eng.parseType(p.Type, specPkg)
+						sl, ok = pt.Underlying().(*types.Slice)
+					}
+					if !ok {
+						cfail("spec %s: reads %s: parameter is not a slice", sf.Name, rk)
+					}
+					for _, k := range elemKeys(sl.Elem()) {
+						flat = append(flat, Select(env.st.heap.Get(k, keySortReg[k]), args[i].C[0]))
+					}
+					isParam = true
+				}
+			}
+			if isParam {
+				continue
+			}
 			et, err := eng.parseType(rk[6:len(rk)-1], specPkg)
 			if err != nil {
 				cfail("spec %s: reads %s: %v", sf.Name, rk, err)
